@@ -16,11 +16,36 @@ Proof. destruct d; reflexivity. Qed.
 
 (** ---- GetUserDB ------------------------------------------------------------------- *)
 
+Definition set_schema (d : dstore) (n : nat) : dstore :=
+  mkD (d_file d) n (d_st d) (d_msgs d) (d_subs d) (d_deliv d).
+
+(** the 26 CREATE ... IF NOT EXISTS statements, issued in order on an existing
+    file, complete the schema from wherever an earlier run stopped *)
+Lemma schema_run d :
+  d_file d = true ->
+  run_steps d (map MSchema (seq 0 NSCHEMA)) = set_schema d (Nat.max NSCHEMA (d_schema d)).
+Proof.
+  destruct d as [f n s ms sb dl]. cbn [d_file d_schema]. intros ->.
+  do 27 (destruct n as [|n]; [vm_compute; reflexivity|]).
+  vm_compute. reflexivity.
+Qed.
+
+Lemma file_of_file d : d_file (file_of d) = true.
+Proof. unfold file_of. destruct (d_file d) eqn:F; [exact F|reflexivity]. Qed.
+
 Lemma open_refines d t1 t2 t3 t4 t5 :
   run_steps d (open_steps d t1 t2 t3 t4 t5) = opened d t1 t2 t3 t4 t5.
 Proof.
-  unfold open_steps, opened. destruct (d_file d); [reflexivity|].
-  vm_compute. reflexivity.
+  unfold open_steps, opened. rewrite !run_steps_app.
+  assert (E1 : run_steps d (if d_file d then [] else [MCreateFile]) = file_of d).
+  { unfold file_of. destruct (d_file d); reflexivity. }
+  rewrite E1. set (d' := file_of d). rewrite (schema_run d' (file_of_file d)).
+  destruct (mboxes (d_st d')) eqn:M.
+  - unfold run_steps. cbn [fold_left exec set_schema d_file d_schema d_st]. unfold d'. rewrite file_of_file. fold d'.
+    replace (1 <=? Nat.max NSCHEMA (d_schema d'))%nat with true
+      by (symmetry; apply Nat.leb_le; unfold NSCHEMA; lia).
+    cbn [andb]. rewrite M. unfold with_st, set_schema. cbn. unfold d'. now rewrite file_of_file.
+  - unfold run_steps, set_schema. cbn [fold_left]. unfold d'. now rewrite file_of_file.
 Qed.
 
 (** ---- StoreMessage ---------------------------------------------------------------- *)
@@ -186,13 +211,11 @@ Proof.
   destruct ok; reflexivity.
 Qed.
 
-Lemma deliver_refines d f t sh t1 t2 t3 t4 t5 :
-  msgs_below (opened d t1 t2 t3 t4 t5) ->
-  run_steps d (micro d (CDeliver f t sh t1 t2 t3 t4 t5)) = fst (big d (CDeliver f t sh t1 t2 t3 t4 t5)).
+Lemma deliver_refines d f t sh :
+  msgs_below d -> ready d = true ->
+  run_steps d (micro d (CDeliver f t sh)) = fst (big d (CDeliver f t sh)).
 Proof.
-  intros Hb. unfold micro, big. rewrite run_steps_app, open_refines.
-  set (d0 := opened d t1 t2 t3 t4 t5) in *.
-  destruct (ready d0) eqn:Hr; [|reflexivity].
+  intros Hb Hr. unfold micro, big. rewrite Hr. set (d0 := d) in *.
   unfold deliver_steps, op_deliver.
   destruct (find_name (d_st d0) f) as [m|] eqn:Fn.
   - cbn [app]. rewrite (deliver_tail_refines d0 (mb_id m) sh Hb).
@@ -220,7 +243,7 @@ Proof.
       destruct (add_message _ _ _ _) as [s3 ok] eqn:Ea.
       assert (Hn : next_msg s3 = next_msg s' + 1).
       { match type of Ea with add_message ?a ?b ?c ?e = _ => pose proof (add_message_next a b c e) as X end.
-      rewrite Ea in X. exact X. }
+        rewrite Ea in X. exact X. }
       cbn [fst d_file d_schema d_msgs d_subs d_deliv with_st]. rewrite Hn, Hn0.
       replace (next_msg (d_st d0) + 1 =? next_msg (d_st d0)) with false by (symmetry; apply Z.eqb_neq; lia).
       destruct ok; reflexivity.
